@@ -164,6 +164,16 @@ def enumerate_cases(seeds, rng, quick):
             doubles.append(FileCase(s, "m=1", [(f1.fidx, f1.off, f1.enc(v1))], trunc=(fi, tl),
                                     what="%s: %s = 0x%x and file %d truncated to %d bytes" % (s.name, f1.name, v1, fi, tl),
                                     weight=2))
+        # split sets: PFN windows of each file against the others; VMCOREINFO PAGESIZE against the
+        # header's block size, read back through a page cache of 1, 2 and the default number of slots
+        special = []
+        for what, patches in F.window_cases(s):
+            special.append(FileCase(s, "m=1", patches, what=what, weight=0))
+        for what, patches in F.pagesize_cases(s):
+            for opt in ("m=1", "m=1,a=cache.size:1", "m=1,a=cache.size:2"):
+                special.append(FileCase(s, opt, patches, what=what + (" after " + opt[4:] if len(opt) > 3 else ""),
+                                        weight=0))
+        cases += special
         # pre-open attribute history: values set on the fresh context before the open
         pre = []
         ps = 0x1000
@@ -399,11 +409,12 @@ def check(run):
                if l.strip() and not l.startswith("#")]
     # ---- files ----
     cases = enumerate_cases(seeds, run.rng, quick)
+    ntotal = len(cases)
     if quick:
         # all unmodified seeds + a per-seed sample sized for the time budget
         keep = [c for c in cases if c.weight == 0]
         rest = [c for c in cases if c.weight != 0]
-        budget = int(os.environ.get("C03_QUICK_CASES", "20000"))
+        budget = int(os.environ.get("C03_QUICK_CASES", "15000"))
         keep += run.rng.sample(rest, min(len(rest), budget))
         cases = keep
     # ---- page size through the public API (model: SizesModel.set_page_size) ----
@@ -428,6 +439,7 @@ def check(run):
         bigcases = run.rng.sample(bigcases, 800)
     lines = pre + rle + sizes + [c.line() for c in cases]
     whats = ["corpus"] * len(pre) + ["rle"] * len(rle) + ["page size"] * len(sizes) + [c.what for c in cases]
+    run.count("enumerated-file-cases-before-sampling", ntotal)
     run.cov["engines"]["corrupt"] = {"corpus_cases": len(pre), "rle_cases": len(rle), "file_cases": len(cases),
                                      "seeds": [s.name for s in seeds],
                                      "fields_mapped": sum(len(s.fields) for s in seeds)}
